@@ -114,7 +114,14 @@ def history(case, d):
             elif k == 'pop':
                 r = md.pop(op[1])
             elif k == 'popd':
-                r = md.pop(op[1], 'DEFAULT')
+                # the default is, where possible, the very object that is stored (None, True, 0, ''):
+                # the key must be removed all the same
+                try:
+                    cur = dict(md).get(op[1], 'DEFAULT')
+                except Exception:
+                    cur = 'DEFAULT'
+                dflt = cur if (cur is None or isinstance(cur, bool) or cur == 0 or cur == '') else 'DEFAULT'
+                r = md.pop(op[1], dflt)
             elif k == 'popitem':
                 r = md.popitem()
             elif k == 'del':
